@@ -18,7 +18,6 @@ import (
 	"strings"
 	"sync"
 	"time"
-	"unicode/utf8"
 
 	"golang.org/x/net/http/httpguts"
 	"google.golang.org/grpc/codes"
@@ -292,11 +291,16 @@ func (w *worker) describe(req *http.Request, o *observation, tag, jv, jp string)
 	default:
 		bp = "field"
 	}
-	sp := false
-	for _, v := range req.Header.Values("Sec-WebSocket-Protocol") {
-		if v == "grpc-websockets" {
-			sp = true
+	hexList := func(name string) string {
+		vs := req.Header.Values(name)
+		if len(vs) == 0 {
+			return "-"
 		}
+		out := make([]string, len(vs))
+		for i, v := range vs {
+			out[i] = common.HexS(v)
+		}
+		return strings.Join(out, ",")
 	}
 	to := len(req.Header.Values("Grpc-Timeout")) > 0
 	vtag := tag
@@ -308,8 +312,9 @@ func (w *worker) describe(req *http.Request, o *observation, tag, jv, jp string)
 	}
 	return strings.Join([]string{
 		kv("tag", vtag), kv("jv", jv), kv("jp", jp),
-		kv("hc", common.HexS(req.Header.Get("Connection"))), kv("hu", common.HexS(req.Header.Get("Upgrade"))),
-		kv("hct", common.HexS(req.Header.Get("Content-Type"))), kv("sp", b01(sp)), kv("to", b01(to)),
+		// every line of the headers WebBridge.ServeHTTP dispatches on (judged by the C19 model of the dispatch)
+		kv("hc", hexList("Connection")), kv("hu", hexList("Upgrade")), kv("hp", hexList("Sec-WebSocket-Protocol")),
+		kv("hct", hexList("Content-Type")), kv("to", b01(to)),
 		kv("m", common.HexS(req.Method)),
 		kv("rt", rt), kv("route", route), kv("cs", b01(o.cs)), kv("ss", b01(o.ss)), kv("bp", bp),
 		kv("streams", o.streams),
@@ -350,7 +355,10 @@ func classifyBody(h http.Header, body []byte, st int) (ct string, wf int, tr int
 	case "json", "sse":
 		wf = b01(jsonStreamOK(body))
 	case "text":
-		wf = b01(utf8.Valid(body))
+		// A plain-text (error) body has no structure to check. It may echo raw client bytes: when a status message
+		// contains invalid UTF-8 the JSON error body cannot be produced and webbridge falls back to text/plain
+		// (C10's clause); HTTP itself does not constrain the bytes of a body, so this is not judged here.
+		wf = 1
 	case "none":
 		wf = b01(len(body) == 0 || st == 101)
 	default:
